@@ -216,6 +216,12 @@ func (e *Engine) callStatic(fr *Frame, st *State, callee *ssa.Function, args []V
 		e.usedLemmas[callee.Name()] = true
 		return e.finishCall(fr, st, nf, args, site)
 	}
+	if callee.Pkg != nil && callee.Pkg.Pkg.Path() == "github.com/irai/packet/fastlog" && e.topPkg != "github.com/irai/packet/fastlog" && !e.inlineFastlog {
+		if pol := e.abstractPolicy(fr, callee); pol != "" {
+			e.assumedExterns[pol] = true
+			return e.havocResults(st, callee.Signature, "abs."+callee.Name())
+		}
+	}
 	if hn, ok := e.contracts[callee]; ok && !fr.inlineContracts {
 		return e.applyContract(fr, st, hn, callee, args, site)
 	}
